@@ -28,6 +28,7 @@ import (
 	"net/http/httptest"
 	"net/textproto"
 	"net/url"
+	"runtime"
 	"sort"
 	"strconv"
 	"strings"
@@ -36,18 +37,23 @@ import (
 	"time"
 
 	"github.com/gorilla/websocket"
+	"github.com/renbou/grpcbridge"
 	"github.com/renbou/grpcbridge/bridgedesc"
 	"github.com/renbou/grpcbridge/bridgelog"
 	"github.com/renbou/grpcbridge/grpcadapter"
 	"github.com/renbou/grpcbridge/routing"
+	"github.com/renbou/grpcbridge/transcoding"
 	"github.com/renbou/grpcbridge/webbridge"
 	"google.golang.org/grpc"
 	"google.golang.org/grpc/codes"
 	"google.golang.org/grpc/metadata"
 	"google.golang.org/grpc/status"
+	"google.golang.org/protobuf/encoding/protowire"
 	"google.golang.org/protobuf/proto"
 	"google.golang.org/protobuf/protoadapt"
+	"google.golang.org/protobuf/reflect/protoregistry"
 	"google.golang.org/protobuf/types/known/emptypb"
+	"google.golang.org/protobuf/types/known/wrapperspb"
 
 	"verif/harness/common"
 )
@@ -225,6 +231,8 @@ func newScenario(kv map[string]string) *scenario {
 	sc := &scenario{kind: kv["k"], rt: kv["rt"], early: -1, te: "none", oc: "-", tr: "-", fmd: "none", wake: make(chan struct{}), done: make(chan struct{}),
 		fwdDone: make(chan struct{}), sendIn: make(chan struct{}), sendOut: make(chan struct{})}
 	switch {
+	case kv["tr"] == "tws":
+		sc.path = fmt.Sprintf("/c08t/M%d", id)
 	case sc.rt == "real":
 		sc.path = fmt.Sprintf("/c08.Unknown/M%d", id)
 	default:
@@ -247,6 +255,9 @@ func newScenario(kv map[string]string) *scenario {
 		sc.delay = time.Duration(ms) * time.Millisecond
 	}
 	mt := messageType(kv["cd"])
+	if kv["tr"] == "tws" {
+		mt = bridgedesc.ConcreteMessage[wrapperspb.StringValue]()
+	}
 	sc.method = &bridgedesc.Method{
 		RPCName:         sc.path,
 		Input:           mt,
@@ -321,6 +332,42 @@ func (router) RouteGRPC(ctx context.Context) (grpcadapter.ClientConn, routing.GR
 	sc.oc = outcome(err)
 	sc.mu.Unlock()
 	return nil, routing.GRPCRoute{}, err
+}
+
+// httpRouter serves the transcoded bridge: POST /c08t/<id>, whole body = the request message
+type httpRouter struct{}
+
+func (httpRouter) RouteHTTP(r *http.Request) (grpcadapter.ClientConn, routing.HTTPRoute, error) {
+	sc := lookup(r.URL.Path)
+	if sc == nil {
+		return nil, routing.HTTPRoute{}, status.Error(codes.NotFound, "c08 harness: unknown scenario")
+	}
+	return &targetConn{sc}, routing.HTTPRoute{
+		Target:  &bridgedesc.Target{Name: "c08-target", FileResolver: protoregistry.GlobalFiles, TypeResolver: protoregistry.GlobalTypes},
+		Service: &bridgedesc.Service{Name: "c08.Svc"},
+		Method:  sc.method,
+		Binding: &bridgedesc.Binding{HTTPMethod: r.Method, Pattern: r.URL.Path, RequestBodyPath: "*"},
+	}, nil
+}
+
+// bothRouter is what grpcbridge.WebBridge wants: gRPC and HTTP routing
+type bothRouter struct {
+	router
+	httpRouter
+}
+
+// extraHeaders: request headers that must not change where the root dispatcher sends a gRPC-Web POST
+func extraHeaders(h http.Header, xh string) {
+	switch xh {
+	case "h2c": // HTTP/2 cleartext upgrade offer (curl --http2, Java HttpClient on http:// URLs)
+		h.Set("Connection", "Upgrade, HTTP2-Settings")
+		h.Set("Upgrade", "h2c")
+		h.Set("HTTP2-Settings", "AAMAAABkAAQAoAAAAAIAAAAA")
+	case "up": // the common nginx WebSocket snippet adds this to every proxied request
+		h.Set("Connection", "upgrade")
+	case "ka":
+		h.Set("Connection", "keep-alive")
+	}
 }
 
 // recFwd runs the real forwarder and records what crosses the ServerStream interface and the outcome.
@@ -504,6 +551,7 @@ var (
 	srvOnce sync.Once
 	handler http.Handler // the bridges, for in-process calls with a controlled ResponseWriter
 	srvH1   *httptest.Server
+	srvRoot *httptest.Server // grpcbridge.WebBridge (root dispatcher) in front of the bridges
 	srvH2   *httptest.Server
 	cliH1   *http.Client
 	cliH2   *http.Client
@@ -532,7 +580,30 @@ func servers() {
 			}
 		})
 		handler = h
+		// the transcoded WebSocket bridge (for the non-reading-client comparison): JSON, StringValue in and out
+		tws := webbridge.NewTranscodedWebSocketBridge(httpRouter{}, webbridge.TranscodedWebSocketBridgeOpts{
+			Logger: bridgelog.Discard(), Forwarder: fwd, Transcoder: transcoding.NewStandardTranscoder(transcoding.StandardTranscoderOpts{}),
+		})
+		inner := h
+		h = http.HandlerFunc(func(w http.ResponseWriter, r *http.Request) {
+			if strings.HasPrefix(r.URL.Path, "/c08t/") {
+				if sc := lookup(r.URL.Path); sc != nil {
+					defer close(sc.done)
+				}
+				tws.ServeHTTP(w, r)
+				return
+			}
+			inner.ServeHTTP(w, r)
+		})
 		srvH1 = httptest.NewServer(h)
+		// the root dispatcher (bridge.go): grpcbridge.WebBridge in front of the same bridges, router and forwarder
+		root := grpcbridge.NewWebBridge(bothRouter{}, grpcbridge.WithForwarder(fwd), grpcbridge.WithLogger(bridgelog.Discard()))
+		srvRoot = httptest.NewServer(http.HandlerFunc(func(w http.ResponseWriter, r *http.Request) {
+			if sc := lookup(r.URL.Path); sc != nil {
+				defer close(sc.done)
+			}
+			root.ServeHTTP(w, r)
+		}))
 		cliH1 = &http.Client{Transport: &http.Transport{DisableKeepAlives: true}, Timeout: 120 * time.Second}
 		srvH2 = httptest.NewUnstartedServer(h)
 		srvH2.EnableHTTP2 = true
@@ -654,6 +725,8 @@ func (Area) Exec(input string) string {
 		return CB(webbridge.VerifLpmTrailer(webbridge.VerifTrailerWithStatus(md, st)))
 	case "obs":
 		return execFlushObs(f[1], kvs(f[2:]))
+	case "nr":
+		return execNoRead(f[1], kvs(f[2:]))
 	case "http":
 		return execHTTP(f[1], kvs(f[2:]))
 	case "ws":
@@ -751,6 +824,9 @@ func execHTTP(ver string, kv map[string]string) string {
 	if ver == "h2" {
 		srv, cli = srvH2, cliH2
 	}
+	if kv["via"] == "root" {
+		srv = srvRoot
+	}
 	pr, pw := io.Pipe()
 	pat := chunkPattern(kv["ck"])
 	go func() {
@@ -770,6 +846,7 @@ func execHTTP(ver string, kv map[string]string) string {
 	req, _ := http.NewRequestWithContext(ctx, http.MethodPost, srv.URL+sc.path, pr)
 	req.Header.Set("Content-Type", "application/grpc-web+proto")
 	req.Header.Set("X-Grpc-Web", "1")
+	extraHeaders(req.Header, kv["xh"])
 	resp, err := cli.Do(req)
 	if err != nil {
 		pr.CloseWithError(err)
@@ -831,6 +908,145 @@ func execFlushObs(ver string, kv map[string]string) string {
 		first = "early"
 	}
 	return fmt.Sprintf("st=%d hs=%s first=%s", resp.StatusCode, hs, first)
+}
+
+// ---------------------------------------------------------------------------------------------
+// a client that stops reading and never closes: `nr gws|tws|h1 to=<grpc-timeout ms> sz=<bytes of the answer>`
+// The target answers with one message larger than all buffers; the Send blocks in the connection; the grpc-timeout
+// makes Forward return with the Send still blocked. Measured from then on: does ServeHTTP return (bound = 3 x the
+// bridge's WebSocket close timeout + 2 s), are the call's goroutines gone, did the bridge close the TCP connection?
+// Afterwards the client goes away (closes) and the handler must return in any case.
+
+// bridgeGoroutines counts goroutines with a frame of the bridge's packages on their stack.
+func bridgeGoroutines() int {
+	buf := make([]byte, 1<<22)
+	buf = buf[:runtime.Stack(buf, true)]
+	n := 0
+	for _, g := range strings.Split(string(buf), "\n\n") {
+		if strings.Contains(g, "grpcbridge/webbridge.") || strings.Contains(g, "lxzan/gws.(*Conn).ReadLoop") {
+			n++
+		}
+	}
+	return n
+}
+
+func execNoRead(tr string, kv map[string]string) string {
+	servers()
+	to, _ := strconv.Atoi(kv["to"])
+	sz, _ := strconv.Atoi(kv["sz"])
+	skv := map[string]string{"k": "ss", "cd": "raw", "rt": "ok", "fs": "0:x", "tm": "-", "ea": "-", "tr": tr}
+	answer := bytes.Repeat([]byte{'a'}, sz)
+	if tr == "tws" { // a marshalled StringValue
+		answer = append(protowire.AppendVarint([]byte{0x0a}, uint64(sz)), answer...)
+	}
+	skv["rs"] = CB(answer)
+	sc := newScenario(skv)
+	defer registry.Delete(sc.path)
+	before := bridgeGoroutines()
+
+	addr := strings.TrimPrefix(srvH1.URL, "http://")
+	dial := func(ctx context.Context, network, a string) (net.Conn, error) {
+		c, err := (&net.Dialer{}).DialContext(ctx, network, a)
+		if tc, ok := c.(*net.TCPConn); ok {
+			_ = tc.SetReadBuffer(1 << 16)
+		}
+		return c, err
+	}
+	var raw net.Conn
+	switch tr {
+	case "gws", "tws":
+		d := websocket.Dialer{HandshakeTimeout: 10 * time.Second, NetDialContext: dial}
+		hdr := http.Header{}
+		if tr == "gws" {
+			d.Subprotocols = []string{"grpc-websockets"}
+		} else {
+			hdr.Set("Grpc-Timeout", fmt.Sprintf("%dm", to))
+		}
+		c, _, err := d.Dial("ws://"+addr+sc.path, hdr)
+		if err != nil {
+			return "CLIENTERR " + common.HexS(err.Error())
+		}
+		raw = c.UnderlyingConn()
+		if tr == "gws" {
+			_ = c.WriteMessage(websocket.BinaryMessage, []byte(fmt.Sprintf("grpc-timeout: %dm\r\n", to)))
+			_ = c.WriteMessage(websocket.BinaryMessage, []byte{0, 0, 0, 0, 0, 1, 7})
+		} else {
+			_ = c.WriteMessage(websocket.TextMessage, []byte(`"hi"`))
+		}
+	default: // gRPC-Web over HTTP/1.1, written by hand so that nothing reads the response
+		c, err := dial(context.Background(), "tcp", addr)
+		if err != nil {
+			return "CLIENTERR " + common.HexS(err.Error())
+		}
+		raw = c
+		fmt.Fprintf(c, "POST %s HTTP/1.1\r\nHost: x\r\nContent-Type: application/grpc-web+proto\r\nGrpc-Timeout: %dm\r\nContent-Length: 6\r\n\r\n", sc.path, to)
+		_, _ = c.Write([]byte{0, 0, 0, 0, 1, 7})
+	}
+	defer raw.Close()
+
+	after := func(ch <-chan struct{}, d time.Duration) bool {
+		select {
+		case <-ch:
+			return true
+		case <-time.After(d):
+			return false
+		}
+	}
+	blk, fwd := "no", "pending"
+	win := min(250*time.Millisecond, time.Duration(to)*time.Millisecond/3)
+	if after(sc.sendIn, 3*time.Second) && !after(sc.sendOut, win) {
+		blk = "yes"
+	}
+	if after(sc.fwdDone, time.Duration(to)*time.Millisecond+3*time.Second) {
+		fwd = "returned"
+	}
+	sc.mu.Lock()
+	if sc.sdFail > 0 && len(sc.sd) == 0 {
+		blk = "yes" // the one Send was abandoned (returned the context error): it had been blocked until the deadline
+	}
+	sc.mu.Unlock()
+	// stalled send + trailer write + close handshake, each under its own deadline of wsCloseTimeout
+	bound := 3*closeTimeout() + 2*time.Second
+	if tr == "h1" {
+		// gRPC-Web over HTTP: finish() waits for net/http's Write, which the bridge cannot bound (assumption: the server's
+		// WriteTimeout / the client going away); only observe that it is still waiting, then let the client go away
+		bound = 1500 * time.Millisecond
+	}
+	t0 := time.Now()
+	ret := sc.wait(bound)
+	el := time.Since(t0)
+	hs := "returned"
+	if !ret {
+		hs = "running"
+	}
+	time.Sleep(150 * time.Millisecond)
+	gr := bridgeGoroutines() - before
+	if gr < 0 {
+		gr = 0
+	}
+	// did the bridge close the connection? drain what is buffered; EOF / reset = closed, still open after 1.5 s = open
+	tcp := "open"
+	dl := time.Now().Add(1500 * time.Millisecond)
+	tmp := make([]byte, 1<<16)
+	for time.Now().Before(dl) {
+		_ = raw.SetReadDeadline(time.Now().Add(300 * time.Millisecond))
+		_, err := raw.Read(tmp)
+		var ne net.Error
+		if err != nil && !(errors.As(err, &ne) && ne.Timeout()) {
+			tcp = "closed"
+			break
+		}
+		if err != nil && !ret {
+			break // a read timeout: nothing more comes, the connection is open
+		}
+	}
+	// the client goes away: now the handler has to return whatever happened before
+	raw.Close()
+	gone := "returned"
+	if !sc.wait(3 * time.Second) {
+		gone = "running"
+	}
+	return fmt.Sprintf("hs=%s el=%d gr=%d tcp=%s blk=%s fwd=%s gone=%s oc=%s", hs, el.Milliseconds(), gr, tcp, blk, fwd, gone, sc.oc)
 }
 
 // ---------------------------------------------------------------------------------------------
@@ -1005,7 +1221,11 @@ func execWS(kv map[string]string) string {
 			return c, err
 		}
 	}
-	c, resp, err := d.Dial("ws"+strings.TrimPrefix(srvH1.URL, "http")+sc.path, nil)
+	wsSrv := srvH1
+	if kv["via"] == "root" {
+		wsSrv = srvRoot
+	}
+	c, resp, err := d.Dial("ws"+strings.TrimPrefix(wsSrv.URL, "http")+sc.path, nil)
 	if err != nil {
 		code := 0
 		if resp != nil {
@@ -1394,7 +1614,12 @@ func genHTTP(r *rand.Rand) string {
 	}
 	rt := genRoute(r)
 	count("http:" + ver + ":" + class)
-	return fmt.Sprintf("http %s k=%s cd=%s rt=%s fr=%s tl=%s ck=%s %s ea=%s", ver, kind, codec, rt, fr, CB(tl), ck, genScript(r, codec), ea)
+	via := ""
+	if ver == "h1" && r.Intn(8) == 0 { // through the root dispatcher, with headers that must not change the dispatch
+		via = " via=root xh=" + common.Pick(r, []string{"-", "h2c", "up", "ka"})
+		count("http:via-root")
+	}
+	return fmt.Sprintf("http %s k=%s cd=%s rt=%s fr=%s tl=%s ck=%s %s ea=%s%s", ver, kind, codec, rt, fr, CB(tl), ck, genScript(r, codec), ea, via)
 }
 
 // genHeaderMsg: the first gRPC-WebSocket message (metadata as HTTP/1.1 header lines), well-formed and not
@@ -1506,7 +1731,11 @@ func genWS(r *rand.Rand) string {
 		ms = strings.Join(items, ",")
 	}
 	count("ws:" + class)
-	return fmt.Sprintf("ws k=%s cd=%s rt=%s hd=%s ms=%s %s ea=%s", kind, codec, genRoute(r), hd, ms, genScript(r, codec), ea)
+	via := ""
+	if r.Intn(10) == 0 {
+		via = " via=root"
+	}
+	return fmt.Sprintf("ws k=%s cd=%s rt=%s hd=%s ms=%s %s ea=%s%s", kind, codec, genRoute(r), hd, ms, genScript(r, codec), ea, via)
 }
 
 // genStalled: Forward returns (grpc-timeout / request-side error) while a response Send is stalled in the writer
@@ -1553,7 +1782,7 @@ func genStalledWS(r *rand.Rand) string {
 		items = append(items, "d:"+CB(payloadBytes(r, common.Pick(r, []int{0, 1, 9, 300}))))
 	}
 	items = append(items, "r:"+CB(common.Pick(r, [][]byte{{}, {0, 0}, {0, 0, 0, 0, 0}})))
-	rs := [][]byte{bytes.Repeat([]byte{byte('a' + r.Intn(26))}, 8<<20)}
+	rs := [][]byte{bytes.Repeat([]byte{byte('a' + r.Intn(26))}, 6<<20)}
 	if kind == "bd" && r.Intn(2) == 0 {
 		rs = append(rs, []byte{2})
 	}
@@ -1627,7 +1856,7 @@ func (Area) Gen(r *rand.Rand, tier string, emit func(string)) {
 	for i := 0; i < nH; i++ {
 		emit(genWSHeader(r))
 	}
-	nT, nB, nS := 6, 12, 2
+	nT, nB, nS := 6, 12, 1
 	if tier == "thorough" {
 		nT, nB, nS = 40, 120, 8
 	}
@@ -1643,6 +1872,10 @@ func (Area) Gen(r *rand.Rand, tier string, emit func(string)) {
 	nF := 6
 	if tier == "thorough" {
 		nF = 60
+		// non-reading clients (3 s each: the bridge's close timeout); the quick tier has the corpus cases
+		emit("nr tws to=400 sz=8388608")
+		emit("nr gws to=300 sz=12582912")
+		emit("nr tws to=500 sz=4194304")
 	}
 	for i := 0; i < nF; i++ {
 		emit(genFlood(r))
